@@ -141,6 +141,10 @@ struct Spec {
   }
   PassSpec pass(int p) const { return passes[std::min<size_t>(p, passes.size() - 1)]; }
   bool rew_throws(int p) const { return static_cast<size_t>(p) < rew.size() && rew[p] == 't'; }
+  bool has_destroy() const {
+    for (auto &o : A) if (o == "d") return true;
+    return false;
+  }
   bool has_failure() const {
     for (auto &p : passes) if (p.term == 't') return true;
     return rew.find('t') != std::string::npos;
@@ -161,14 +165,12 @@ struct OEv {
   char op;    // n r v b d  (consumer events)
 };
 
-// the property whose program family is being run (--prop): every oracle failure on that family is reported under it
-// (the clause's own property is kept in the text), so that no failure is filtered away by the caller
-std::string g_prop;
-inline std::string tag_prop(const char *clause) {
-  return g_prop.empty() ? std::string(clause) : g_prop;
-}
-inline std::string clause_note(const char *clause) {
-  return (g_prop.empty() || g_prop == clause) ? std::string() : std::string(" [clause of ") + clause + "]";
+// Attribution of an oracle failure: by the FEATURES of the execution, not by the clause that fired and not by the
+// property being run.  C09 if the producer script throws or the consumer script calls Destroy explicitly; else C08 if
+// a BeforeFirst was started at or before the failing observation; else C07.  The clause's home property is kept in
+// the text.  A run of property X therefore reports exactly the failing executions that exercise X's feature.
+inline std::string clause_note(const std::string &attributed, const char *clause) {
+  return attributed == clause ? std::string() : std::string(" [clause of ") + clause + "]";
 }
 
 struct Exec {
@@ -191,6 +193,11 @@ struct Exec {
   std::vector<std::string> fails;     // "class=<c> prop=<Cxx> text"
   int max_lent = 0;
   bool destroyed = false;
+  bool bf_started = false;
+  std::string attribute(bool bf_seen) const {
+    if (spec.has_failure() || spec.has_destroy()) return "C09";
+    return bf_seen ? "C08" : "C07";
+  }
 
   ~Exec() {
     for (int s = 0; s < 2; ++s)
@@ -198,7 +205,8 @@ struct Exec {
   }
   void ev(const std::string &s) { pending.push_back(s); }
   void fail(const char *prop, const char *cls, const std::string &msg) {
-    if (fails.size() < 8) fails.push_back(std::string("class=") + cls + " prop=" + tag_prop(prop) + " " + msg + clause_note(prop));
+    std::string at = attribute(bf_started);
+    if (fails.size() < 8) fails.push_back(std::string("class=") + cls + " prop=" + at + " " + msg + clause_note(at, prop));
   }
   int lent_now() const {
     int n = 0;
@@ -406,6 +414,7 @@ void do_op(Exec *X, int slot, const std::string &op) {
     X->ev(r);
   } else if (op == "bf") {
     X->ev("start=bf");
+    X->bf_started = true;
     X->olog.push_back(OEv{E_START, slot, 0, 0, 'b'});
     std::string r;
     try {
@@ -586,8 +595,10 @@ RunOut run_one(const Spec &sp, vs::Chooser *inner, bool fine, int spurious_budge
 // ------------------------------------------------------------------------------------------------
 void oracle(Exec *X, const vs::Result &r, std::vector<std::string> *fails) {
   *fails = X->fails;
+  bool seen_bf = X->bf_started;  // status / whole-run clauses: was a BeforeFirst started at all; refined while walking the log
   auto fail = [&](const char *prop, const char *cls, const std::string &m) {
-    if (fails->size() < 12) fails->push_back(std::string("class=") + cls + " prop=" + tag_prop(prop) + " " + m + clause_note(prop));
+    std::string at = X->attribute(seen_bf);
+    if (fails->size() < 12) fails->push_back(std::string("class=") + cls + " prop=" + at + " " + m + clause_note(at, prop));
   };
   const Spec &sp = X->spec;
   bool failing = sp.has_failure();
@@ -615,6 +626,7 @@ void oracle(Exec *X, const vs::Result &r, std::vector<std::string> *fails) {
   if (r.status != vs::COMPLETED) return;
 
   // walk the log
+  seen_bf = false;
   int rewinds_ok = 0, rew_calls = 0, bf_ok = 0;
   bool thrown = false, destroyed = false, any_err = false;
   std::map<int, std::vector<int>> delivered;       // pass -> production positions, in log order
@@ -637,6 +649,7 @@ void oracle(Exec *X, const vs::Result &r, std::vector<std::string> *fails) {
       case E_REW_THROW: ++rew_calls; thrown = true; throw_pass = e.pass; break;
       case E_START:
         if (e.op == 'd') destroyed = true;
+        if (e.op == 'b') seen_bf = true;
         if (e.slot >= 0 && e.slot < 2) err_before_start[e.slot] = any_err;
         break;
       case E_NEXT_ITEM: {
@@ -685,6 +698,7 @@ void oracle(Exec *X, const vs::Result &r, std::vector<std::string> *fails) {
   }
   // exactly once, in order, no gaps: the positions delivered in a pass are 0..k-1
   for (auto &kv : delivered) {
+    seen_bf = kv.first >= 1;  // items of pass >= 1 were delivered after a BeforeFirst
     std::vector<int> v = kv.second;
     std::sort(v.begin(), v.end());
     for (size_t i = 0; i < v.size(); ++i)
@@ -697,9 +711,12 @@ void oracle(Exec *X, const vs::Result &r, std::vector<std::string> *fails) {
       fail("C07", "none", "pass " + std::to_string(kv.first) + ": end reported but only " + std::to_string(v.size()) + " of " +
            std::to_string(produced[kv.first]) + " items delivered");
   }
-  for (auto &kv : end_seen)
+  for (auto &kv : end_seen) {
+    seen_bf = kv.first >= 1;
     if (kv.second && delivered[kv.first].size() != static_cast<size_t>(produced[kv.first]))
       fail("C07", "none", "pass " + std::to_string(kv.first) + ": end reported with undelivered items");
+  }
+  seen_bf = X->bf_started;
   if (!thrown && rew_calls != bf_ok + 0 && !failing) {
     // a BeforeFirst after Destroy returns without a rewind; those are E_CALL_OK, not E_BF_OK
     fail("C08", "none", "rewind callback ran " + std::to_string(rew_calls) + " times for " + std::to_string(bf_ok) + " BeforeFirst calls");
@@ -881,7 +898,7 @@ int main(int argc, char **argv) {
   std::string prop = "C07";
   long budget = -1;
   for (int i = 1; i < argc; ++i) {
-    if (!strcmp(argv[i], "--prop") && i + 1 < argc) { prop = argv[++i]; g_prop = prop; }
+    if (!strcmp(argv[i], "--prop") && i + 1 < argc) prop = argv[++i];
     if (!strcmp(argv[i], "--budget") && i + 1 < argc) budget = atol(argv[++i]);
   }
   TIterHarness h;
